@@ -37,6 +37,13 @@ type comparison =
 | Lt
 | Gt
 
+(** val compOpp : comparison -> comparison **)
+
+let compOpp = function
+| Eq -> Eq
+| Lt -> Gt
+| Gt -> Lt
+
 module Coq__1 = struct
  (** val add : nat -> nat -> nat **)
  let rec add n0 m =
@@ -90,7 +97,18 @@ module Nat =
     | S n' -> (match m with
                | O -> false
                | S m' -> leb n' m')
+
+  (** val ltb : nat -> nat -> bool **)
+
+  let ltb n0 m =
+    leb (S n0) m
  end
+
+(** val tl : 'a1 list -> 'a1 list **)
+
+let tl = function
+| [] -> []
+| _ :: m -> m
 
 (** val nth : nat -> 'a1 list -> 'a1 -> 'a1 **)
 
@@ -102,6 +120,33 @@ let rec nth n0 l default =
   | S m -> (match l with
             | [] -> default
             | _ :: t -> nth m t default)
+
+(** val nth_error : 'a1 list -> nat -> 'a1 option **)
+
+let rec nth_error l = function
+| O -> (match l with
+        | [] -> None
+        | x :: _ -> Some x)
+| S n1 -> (match l with
+           | [] -> None
+           | _ :: l0 -> nth_error l0 n1)
+
+(** val last : 'a1 list -> 'a1 -> 'a1 **)
+
+let rec last l d =
+  match l with
+  | [] -> d
+  | a :: l0 -> (match l0 with
+                | [] -> a
+                | _ :: _ -> last l0 d)
+
+(** val removelast : 'a1 list -> 'a1 list **)
+
+let rec removelast = function
+| [] -> []
+| a :: l0 -> (match l0 with
+              | [] -> []
+              | _ :: _ -> a :: (removelast l0))
 
 (** val rev : 'a1 list -> 'a1 list **)
 
@@ -121,6 +166,13 @@ let rec flat_map f = function
 | [] -> []
 | x :: t -> app (f x) (flat_map f t)
 
+(** val fold_left : ('a1 -> 'a2 -> 'a1) -> 'a2 list -> 'a1 -> 'a1 **)
+
+let rec fold_left f l a0 =
+  match l with
+  | [] -> a0
+  | b :: t -> fold_left f t (f a0 b)
+
 (** val existsb : ('a1 -> bool) -> 'a1 list -> bool **)
 
 let rec existsb f = function
@@ -133,15 +185,21 @@ let rec forallb f = function
 | [] -> true
 | a :: l0 -> (&&) (f a) (forallb f l0)
 
+(** val filter : ('a1 -> bool) -> 'a1 list -> 'a1 list **)
+
+let rec filter f = function
+| [] -> []
+| x :: l0 -> if f x then x :: (filter f l0) else filter f l0
+
 (** val combine : 'a1 list -> 'a2 list -> ('a1 * 'a2) list **)
 
 let rec combine l l' =
   match l with
   | [] -> []
-  | x :: tl ->
+  | x :: tl0 ->
     (match l' with
      | [] -> []
-     | y :: tl' -> (x, y) :: (combine tl tl'))
+     | y :: tl' -> (x, y) :: (combine tl0 tl'))
 
 (** val firstn : nat -> 'a1 list -> 'a1 list **)
 
@@ -370,6 +428,18 @@ module Coq_Pos =
 
 module N =
  struct
+  (** val succ_double : n -> n **)
+
+  let succ_double = function
+  | N0 -> Npos XH
+  | Npos p -> Npos (XI p)
+
+  (** val double : n -> n **)
+
+  let double = function
+  | N0 -> N0
+  | Npos p -> Npos (XO p)
+
   (** val add : n -> n -> n **)
 
   let add n0 m =
@@ -444,6 +514,39 @@ module N =
     | Gt -> n'
     | _ -> n0
 
+  (** val pos_div_eucl : positive -> n -> n * n **)
+
+  let rec pos_div_eucl a b =
+    match a with
+    | XI a' ->
+      let (q, r) = pos_div_eucl a' b in
+      let r' = succ_double r in
+      if leb b r' then ((succ_double q), (sub r' b)) else ((double q), r')
+    | XO a' ->
+      let (q, r) = pos_div_eucl a' b in
+      let r' = double r in
+      if leb b r' then ((succ_double q), (sub r' b)) else ((double q), r')
+    | XH ->
+      (match b with
+       | N0 -> (N0, (Npos XH))
+       | Npos p -> (match p with
+                    | XH -> ((Npos XH), N0)
+                    | _ -> (N0, (Npos XH))))
+
+  (** val div_eucl : n -> n -> n * n **)
+
+  let div_eucl a b =
+    match a with
+    | N0 -> (N0, N0)
+    | Npos na -> (match b with
+                  | N0 -> (N0, a)
+                  | Npos _ -> pos_div_eucl na b)
+
+  (** val modulo : n -> n -> n **)
+
+  let modulo a b =
+    snd (div_eucl a b)
+
   (** val to_nat : n -> nat **)
 
   let to_nat = function
@@ -516,11 +619,135 @@ module Z =
        | Zpos y' -> pos_sub y' x'
        | Zneg y' -> Zneg (Coq_Pos.add x' y'))
 
+  (** val opp : z -> z **)
+
+  let opp = function
+  | Z0 -> Z0
+  | Zpos x0 -> Zneg x0
+  | Zneg x0 -> Zpos x0
+
+  (** val sub : z -> z -> z **)
+
+  let sub m n0 =
+    add m (opp n0)
+
+  (** val mul : z -> z -> z **)
+
+  let mul x y =
+    match x with
+    | Z0 -> Z0
+    | Zpos x' ->
+      (match y with
+       | Z0 -> Z0
+       | Zpos y' -> Zpos (Coq_Pos.mul x' y')
+       | Zneg y' -> Zneg (Coq_Pos.mul x' y'))
+    | Zneg x' ->
+      (match y with
+       | Z0 -> Z0
+       | Zpos y' -> Zneg (Coq_Pos.mul x' y')
+       | Zneg y' -> Zpos (Coq_Pos.mul x' y'))
+
+  (** val compare : z -> z -> comparison **)
+
+  let compare x y =
+    match x with
+    | Z0 -> (match y with
+             | Z0 -> Eq
+             | Zpos _ -> Lt
+             | Zneg _ -> Gt)
+    | Zpos x' -> (match y with
+                  | Zpos y' -> Coq_Pos.compare x' y'
+                  | _ -> Gt)
+    | Zneg x' ->
+      (match y with
+       | Zneg y' -> compOpp (Coq_Pos.compare x' y')
+       | _ -> Lt)
+
+  (** val leb : z -> z -> bool **)
+
+  let leb x y =
+    match compare x y with
+    | Gt -> false
+    | _ -> true
+
+  (** val ltb : z -> z -> bool **)
+
+  let ltb x y =
+    match compare x y with
+    | Lt -> true
+    | _ -> false
+
+  (** val max : z -> z -> z **)
+
+  let max n0 m =
+    match compare n0 m with
+    | Lt -> m
+    | _ -> n0
+
+  (** val to_nat : z -> nat **)
+
+  let to_nat = function
+  | Zpos p -> Coq_Pos.to_nat p
+  | _ -> O
+
+  (** val to_N : z -> n **)
+
+  let to_N = function
+  | Zpos p -> Npos p
+  | _ -> N0
+
   (** val of_N : n -> z **)
 
   let of_N = function
   | N0 -> Z0
   | Npos p -> Zpos p
+
+  (** val pos_div_eucl : positive -> z -> z * z **)
+
+  let rec pos_div_eucl a b =
+    match a with
+    | XI a' ->
+      let (q, r) = pos_div_eucl a' b in
+      let r' = add (mul (Zpos (XO XH)) r) (Zpos XH) in
+      if ltb r' b
+      then ((mul (Zpos (XO XH)) q), r')
+      else ((add (mul (Zpos (XO XH)) q) (Zpos XH)), (sub r' b))
+    | XO a' ->
+      let (q, r) = pos_div_eucl a' b in
+      let r' = mul (Zpos (XO XH)) r in
+      if ltb r' b
+      then ((mul (Zpos (XO XH)) q), r')
+      else ((add (mul (Zpos (XO XH)) q) (Zpos XH)), (sub r' b))
+    | XH -> if leb (Zpos (XO XH)) b then (Z0, (Zpos XH)) else ((Zpos XH), Z0)
+
+  (** val div_eucl : z -> z -> z * z **)
+
+  let div_eucl a b =
+    match a with
+    | Z0 -> (Z0, Z0)
+    | Zpos a' ->
+      (match b with
+       | Z0 -> (Z0, a)
+       | Zpos _ -> pos_div_eucl a' b
+       | Zneg b' ->
+         let (q, r) = pos_div_eucl a' (Zpos b') in
+         (match r with
+          | Z0 -> ((opp q), Z0)
+          | _ -> ((opp (add q (Zpos XH))), (add b r))))
+    | Zneg a' ->
+      (match b with
+       | Z0 -> (Z0, a)
+       | Zpos _ ->
+         let (q, r) = pos_div_eucl a' b in
+         (match r with
+          | Z0 -> ((opp q), Z0)
+          | _ -> ((opp (add q (Zpos XH))), (sub b r)))
+       | Zneg b' -> let (q, r) = pos_div_eucl a' (Zpos b') in (q, (opp r)))
+
+  (** val modulo : z -> z -> z **)
+
+  let modulo a b =
+    let (_, r) = div_eucl a b in r
  end
 
 type byte = n
@@ -566,6 +793,12 @@ let rec bytes_eqb a b =
     (match b with
      | [] -> false
      | y :: b' -> (&&) (N.eqb x y) (bytes_eqb a' b'))
+
+(** val is_cont : byte -> bool **)
+
+let is_cont b =
+  (&&) (N.leb (Npos (XO (XO (XO (XO (XO (XO (XO XH)))))))) b)
+    (N.leb b (Npos (XI (XI (XI (XI (XI (XI (XO XH)))))))))
 
 (** val strip : bytes -> bytes **)
 
@@ -2095,3 +2328,666 @@ let passes_fuel t =
 
 let all_passes l =
   let t = parse l in passes t (passes_fuel t)
+
+(** val blen : bytes -> n **)
+
+let blen l =
+  N.of_nat (length l)
+
+(** val u16 : n -> n **)
+
+let u16 n0 =
+  N.modulo n0 (Npos (XO (XO (XO (XO (XO (XO (XO (XO (XO (XO (XO (XO (XO (XO
+    (XO (XO XH)))))))))))))))))
+
+(** val u32 : n -> n **)
+
+let u32 n0 =
+  N.modulo n0 (Npos (XO (XO (XO (XO (XO (XO (XO (XO (XO (XO (XO (XO (XO (XO
+    (XO (XO (XO (XO (XO (XO (XO (XO (XO (XO (XO (XO (XO (XO (XO (XO (XO (XO
+    XH)))))))))))))))))))))))))))))))))
+
+(** val u32z : z -> n **)
+
+let u32z z0 =
+  Z.to_N
+    (Z.modulo z0 (Zpos (XO (XO (XO (XO (XO (XO (XO (XO (XO (XO (XO (XO (XO
+      (XO (XO (XO (XO (XO (XO (XO (XO (XO (XO (XO (XO (XO (XO (XO (XO (XO (XO
+      (XO XH))))))))))))))))))))))))))))))))))
+
+(** val count_lf : bytes -> n **)
+
+let rec count_lf = function
+| [] -> N0
+| b :: t ->
+  N.add (if N.eqb b (Npos (XO (XI (XO XH)))) then Npos XH else N0)
+    (count_lf t)
+
+(** val rfind_lf : bytes -> n option **)
+
+let rec rfind_lf = function
+| [] -> None
+| b :: t ->
+  (match rfind_lf t with
+   | Some p -> Some (N.add p (Npos XH))
+   | None -> if N.eqb b (Npos (XO (XI (XO XH)))) then Some N0 else None)
+
+(** val first_line_len : bytes -> n **)
+
+let rec first_line_len = function
+| [] -> N0
+| b :: t ->
+  if N.eqb b (Npos (XO (XI (XO XH))))
+  then N0
+  else N.add (Npos XH) (first_line_len t)
+
+(** val split_lf : bytes -> bytes list **)
+
+let rec split_lf = function
+| [] -> [] :: []
+| b :: t ->
+  if N.eqb b (Npos (XO (XI (XO XH))))
+  then [] :: (split_lf t)
+  else (match split_lf t with
+        | [] -> (b :: []) :: []
+        | s :: r -> (b :: s) :: r)
+
+(** val nsum : n list -> n **)
+
+let rec nsum = function
+| [] -> N0
+| a :: t -> N.add a (nsum t)
+
+(** val last_opt : 'a1 list -> 'a1 option **)
+
+let last_opt l =
+  match rev l with
+  | [] -> None
+  | a :: _ -> Some a
+
+(** val is_char_boundary : bytes -> nat -> bool **)
+
+let is_char_boundary l k = match k with
+| O -> true
+| S _ ->
+  (match nth_error l k with
+   | Some b -> negb (is_cont b)
+   | None -> Nat.eqb k (length l))
+
+type rtok = (bytes * bytes) * rawTokenType
+
+(** val r_ws : rtok -> bytes **)
+
+let r_ws t =
+  fst (fst t)
+
+(** val r_content : rtok -> bytes **)
+
+let r_content t =
+  snd (fst t)
+
+(** val r_ty : rtok -> rawTokenType **)
+
+let r_ty =
+  snd
+
+(** val r_str : rtok -> bytes **)
+
+let r_str t =
+  app (r_ws t) (r_content t)
+
+type tokpos =
+| PContent of n
+| PMultiline of n * n
+| PWhitespace of n * n
+
+(** val is_multiline_raw : rawTokenType -> bool **)
+
+let is_multiline_raw = function
+| RTT_TextLiteral k -> (match k with
+                        | TK_MultiLine -> true
+                        | _ -> false)
+| RTT_Comment k -> (match k with
+                    | CoK_MultilineBlock -> true
+                    | _ -> false)
+| _ -> false
+
+(** val find_cursor : rtok list -> nat -> z -> ((nat * rtok) * z) option **)
+
+let rec find_cursor toks idx rem =
+  match toks with
+  | [] -> None
+  | t :: r ->
+    let next_len = Z.of_N (blen (r_str t)) in
+    if Z.leb rem next_len
+    then Some ((idx, t), (Z.sub rem (Z.of_N (blen (r_ws t)))))
+    else find_cursor r (S idx) (Z.sub rem next_len)
+
+(** val col_back_pre : rtok list -> n **)
+
+let rec col_back_pre = function
+| [] -> N0
+| t :: r ->
+  let s = r_str t in
+  (match rfind_lf s with
+   | Some pos -> N.sub (blen s) (N.add pos (Npos XH))
+   | None -> N.add (blen s) (col_back_pre r))
+
+(** val col_for_token_end_pre_fmt : rtok list -> nat -> n **)
+
+let col_for_token_end_pre_fmt toks idx1 =
+  col_back_pre (rev (firstn idx1 toks))
+
+(** val tokpos_of : rtok list -> nat -> rtok -> z -> tokpos **)
+
+let tokpos_of toks idx t tp =
+  if Z.leb Z0 tp
+  then if is_multiline_raw (r_ty t)
+       then let after = skipn (Z.to_nat tp) (r_content t) in
+            PMultiline ((u16 (first_line_len after)), (u16 (count_lf after)))
+       else PContent (u32z tp)
+  else let ws = r_ws t in
+       let k = Z.to_nat (Z.max Z0 (Z.add (Z.of_N (blen ws)) tp)) in
+       let before = firstn k ws in
+       let after = skipn k ws in
+       let nla = u16 (count_lf after) in
+       let col =
+         match rfind_lf before with
+         | Some pos -> N.sub (N.sub (blen before) (Npos XH)) pos
+         | None -> N.add (blen before) (col_for_token_end_pre_fmt toks idx)
+       in
+       PWhitespace ((u16 col), nla)
+
+(** val process_cursor : rtok list -> n -> nat * tokpos **)
+
+let process_cursor toks c =
+  match find_cursor toks O (Z.of_N c) with
+  | Some p ->
+    let (p0, tp) = p in let (idx, t) = p0 in (idx, (tokpos_of toks idx t tp))
+  | None -> ((length toks), (PContent N0))
+
+(** val process_cursor_ok : rtok list -> n -> bool **)
+
+let process_cursor_ok toks c =
+  match find_cursor toks O (Z.of_N c) with
+  | Some p ->
+    let (p0, tp) = p in
+    let (_, t) = p0 in
+    if Z.leb Z0 tp
+    then if is_multiline_raw (r_ty t)
+         then is_char_boundary (r_content t) (Z.to_nat tp)
+         else true
+    else is_char_boundary (r_ws t)
+           (Z.to_nat (Z.max Z0 (Z.add (Z.of_N (blen (r_ws t))) tp)))
+  | None -> true
+
+(** val nl_len : rsettings -> n **)
+
+let nl_len rs =
+  blen rs.rs_newline
+
+(** val nonbreaking_ws_len : rsettings -> ftoken -> n * bool **)
+
+let nonbreaking_ws_len rs = function
+| (tok, f) ->
+  if f.f_ignored
+  then let ws = tok.t_ws in
+       (match rfind_lf ws with
+        | Some pos -> ((N.sub (blen ws) (N.add pos (Npos XH))), true)
+        | None -> ((blen ws), false))
+  else ((N.add (N.add f.f_sp (N.mul f.f_cont (blen rs.rs_cont)))
+          (N.mul f.f_ind (blen rs.rs_indent))), (N.ltb N0 f.f_nl))
+
+(** val ws_len : rsettings -> ftoken -> n **)
+
+let ws_len rs p = match p with
+| (tok, f) ->
+  if f.f_ignored
+  then blen tok.t_ws
+  else N.add (fst (nonbreaking_ws_len rs p)) (N.mul f.f_nl (nl_len rs))
+
+(** val col_back_post : rsettings -> ftoken list -> n **)
+
+let rec col_back_post rs = function
+| [] -> N0
+| p :: r ->
+  let c = (fst p).t_content in
+  (match rfind_lf c with
+   | Some pos -> N.sub (blen c) (N.add pos (Npos XH))
+   | None ->
+     let (len, break_found) = nonbreaking_ws_len rs p in
+     N.add (N.add (blen c) len)
+       (if break_found then N0 else col_back_post rs r))
+
+(** val col_for_token_end_post_fmt : rsettings -> ftoken list -> nat -> n **)
+
+let col_for_token_end_post_fmt rs toks idx1 =
+  col_back_post rs (rev (firstn idx1 toks))
+
+(** val offset_for_token : rsettings -> ftoken list -> nat -> n **)
+
+let rec offset_for_token rs toks idx =
+  match toks with
+  | [] -> N0
+  | p :: r ->
+    N.add (ws_len rs p)
+      (match idx with
+       | O -> N0
+       | S j -> N.add (blen (fst p).t_content) (offset_for_token rs r j))
+
+(** val offset_from_end : bytes -> n -> n -> n **)
+
+let offset_from_end content rc nla =
+  N.add
+    (nsum
+      (map (fun line -> N.add (blen line) (Npos XH))
+        (firstn (N.to_nat nla) (rev (split_lf content))))) rc
+
+(** val relocate_target :
+    ftoken list -> nat -> tokpos -> (ftoken * tokpos) option **)
+
+let relocate_target toks idx pos =
+  match nth_error toks idx with
+  | Some p -> Some (p, pos)
+  | None ->
+    (match last_opt toks with
+     | Some p -> Some (p, (PContent (u32 (blen (fst p).t_content))))
+     | None -> None)
+
+(** val lines_back : n -> n -> n **)
+
+let lines_back nl nla =
+  let lb = N.min nla nl in
+  if (&&) (N.leb nl nla) (N.ltb (Npos XH) nl) then N.sub lb (Npos XH) else lb
+
+(** val lf_positions_from : n -> bytes -> n list **)
+
+let rec lf_positions_from i = function
+| [] -> []
+| b :: t ->
+  if N.eqb b (Npos (XO (XI (XO XH))))
+  then i :: (lf_positions_from (N.add i (Npos XH)) t)
+  else lf_positions_from (N.add i (Npos XH)) t
+
+(** val kept_len_ignored : bytes -> nat -> n **)
+
+let kept_len_ignored ws k =
+  match last_opt (firstn k (lf_positions_from N0 ws)) with
+  | Some pos -> N.add pos (Npos XH)
+  | None -> N0
+
+(** val kept_len : rsettings -> ftoken -> n -> n **)
+
+let kept_len rs p nla =
+  let nl = (snd p).f_nl in
+  let kept_breaks = N.sub nl (lines_back nl nla) in
+  if (snd p).f_ignored
+  then kept_len_ignored (fst p).t_ws (N.to_nat kept_breaks)
+  else N.mul (nl_len rs) kept_breaks
+
+(** val clamp : n -> n -> n -> n **)
+
+let clamp x lo hi =
+  if N.ltb x lo then lo else if N.ltb hi x then hi else x
+
+(** val relocate_at :
+    rsettings -> ftoken list -> nat -> ftoken -> tokpos -> z **)
+
+let relocate_at rs toks idx p pos =
+  let nto = Z.of_N (offset_for_token rs toks idx) in
+  let clen = blen (fst p).t_content in
+  (match pos with
+   | PContent off -> Z.add nto (Z.of_N (N.min off (u32 clen)))
+   | PMultiline (rc, nla) ->
+     let ofe = offset_from_end (fst p).t_content rc nla in
+     Z.sub (Z.add nto (Z.of_N clen)) (Z.of_N (N.min ofe clen))
+   | PWhitespace (col, nla) ->
+     let nl = (snd p).f_nl in
+     if N.ltb N0 (N.min nla nl)
+     then Z.sub (Z.add nto (Z.of_N (kept_len rs p nla)))
+            (Z.of_N (ws_len rs p))
+     else let (wl, break_found) = nonbreaking_ws_len rs p in
+          let col_ws_start =
+            if break_found then N0 else col_for_token_end_post_fmt rs toks idx
+          in
+          let col_start = N.add col_ws_start wl in
+          Z.sub nto
+            (Z.sub (Z.of_N col_start)
+              (Z.of_N (clamp col col_ws_start col_start))))
+
+(** val relocate : rsettings -> ftoken list -> nat -> tokpos -> z option **)
+
+let relocate rs toks idx pos =
+  match relocate_target toks idx pos with
+  | Some p0 -> let (p, pos') = p0 in Some (relocate_at rs toks idx p pos')
+  | None -> None
+
+(** val track_cursor :
+    rsettings -> rtok list -> ftoken list -> n -> z option **)
+
+let track_cursor rs raw final c =
+  let (idx, pos) = process_cursor raw c in relocate rs final idx pos
+
+(** val track_cursor_u32 : rsettings -> rtok list -> ftoken list -> n -> n **)
+
+let track_cursor_u32 rs raw final c =
+  match track_cursor rs raw final c with
+  | Some z0 -> u32z z0
+  | None -> c
+
+(** val is_lf : byte -> bool **)
+
+let is_lf b =
+  N.eqb b (Npos (XO (XI (XO XH))))
+
+(** val is_cr : byte -> bool **)
+
+let is_cr b =
+  N.eqb b (Npos (XI (XO (XI XH))))
+
+(** val is_term : byte -> bool **)
+
+let is_term b =
+  (||) (is_cr b) (is_lf b)
+
+(** val is_quote : byte -> bool **)
+
+let is_quote b =
+  N.eqb b (Npos (XI (XI (XI (XO (XO XH))))))
+
+(** val cons_to_first : byte -> bytes list -> bytes list **)
+
+let cons_to_first b = function
+| [] -> (b :: []) :: []
+| p :: ps' -> (b :: p) :: ps'
+
+(** val ml_drop_while : (byte -> bool) -> bytes -> bytes **)
+
+let rec ml_drop_while p l = match l with
+| [] -> []
+| a :: t -> if p a then ml_drop_while p t else l
+
+(** val trim_start_by : (byte -> bool) -> bytes -> bytes **)
+
+let trim_start_by =
+  ml_drop_while
+
+(** val trim_end_by : (byte -> bool) -> bytes -> bytes **)
+
+let trim_end_by p l =
+  rev (ml_drop_while p (rev l))
+
+(** val trim_by : (byte -> bool) -> bytes -> bytes **)
+
+let trim_by p l =
+  trim_end_by p (trim_start_by p l)
+
+(** val ml_strip_prefix : bytes -> bytes -> bytes option **)
+
+let ml_strip_prefix p l =
+  if is_prefix p l then Some (skipn (length p) l) else None
+
+(** val is_nil : 'a1 list -> bool **)
+
+let is_nil = function
+| [] -> true
+| _ :: _ -> false
+
+(** val split_incl_custom : bool -> bytes -> bytes list **)
+
+let rec split_incl_custom skip = function
+| [] -> []
+| c :: t ->
+  if (&&) skip (is_lf c)
+  then cons_to_first c (split_incl_custom false t)
+  else if is_term c
+       then (c :: []) :: (split_incl_custom (is_cr c) t)
+       else cons_to_first c (split_incl_custom false t)
+
+(** val lines_custom : bytes -> bytes list **)
+
+let lines_custom input =
+  map (trim_by is_term) (split_incl_custom false input)
+
+(** val last_opt0 : 'a1 list -> 'a1 option **)
+
+let rec last_opt0 = function
+| [] -> None
+| a :: t -> (match t with
+             | [] -> Some a
+             | _ :: _ -> last_opt0 t)
+
+(** val is_u3000 : byte -> byte -> byte -> bool **)
+
+let is_u3000 a b c =
+  (&&)
+    ((&&) (N.eqb a (Npos (XI (XI (XO (XO (XO (XI (XI XH)))))))))
+      (N.eqb b (Npos (XO (XO (XO (XO (XO (XO (XO XH))))))))))
+    (N.eqb c (Npos (XO (XO (XO (XO (XO (XO (XO XH)))))))))
+
+(** val count_leading_whitespace : bytes -> nat **)
+
+let rec count_leading_whitespace = function
+| [] -> O
+| a :: t ->
+  if N.leb a (Npos (XO (XO (XO (XO (XO XH))))))
+  then S (count_leading_whitespace t)
+  else (match t with
+        | [] -> O
+        | b :: l0 ->
+          (match l0 with
+           | [] -> O
+           | c :: t' ->
+             if is_u3000 a b c
+             then S (S (S (count_leading_whitespace t')))
+             else O))
+
+(** val ml_indent : rsettings -> n -> n -> bytes **)
+
+let ml_indent rs ind cont =
+  app (nrepeat ind rs.rs_indent) (nrepeat cont rs.rs_cont)
+
+(** val rewrite_line : bytes -> bytes -> bytes -> bytes option **)
+
+let rewrite_line indent base line =
+  match ml_strip_prefix base line with
+  | Some stripped ->
+    Some (if is_nil stripped then [] else app indent stripped)
+  | None -> if is_prefix line base then Some [] else None
+
+(** val rewrite_lines :
+    bytes -> bytes -> bytes -> bytes list -> bytes option **)
+
+let rec rewrite_lines nl indent base = function
+| [] -> Some []
+| l :: t ->
+  (match rewrite_line indent base l with
+   | Some x ->
+     (match rewrite_lines nl indent base t with
+      | Some r -> Some (app nl (app x r))
+      | None -> None)
+   | None -> None)
+
+(** val try_rewrite_string :
+    rsettings -> n -> n -> bytes -> bytes -> bytes option **)
+
+let try_rewrite_string rs ind cont original base_indentation =
+  match lines_custom original with
+  | [] -> Some []
+  | l0 :: rest ->
+    (match rewrite_lines rs.rs_newline (ml_indent rs ind cont)
+             base_indentation rest with
+     | Some r -> Some (app l0 r)
+     | None -> None)
+
+(** val leading_ws : bytes -> bytes **)
+
+let leading_ws l =
+  firstn (count_leading_whitespace l) l
+
+(** val ml_base_of_last_line : bytes -> bytes option **)
+
+let ml_base_of_last_line last_line =
+  let base = leading_ws last_line in
+  if Nat.eqb (length base) (length (trim_end_by is_quote last_line))
+  then Some base
+  else None
+
+(** val rewrite_ml_token : rsettings -> n -> n -> bytes -> bytes option **)
+
+let rewrite_ml_token rs ind cont content =
+  match last_opt0 (lines_custom content) with
+  | Some last_line ->
+    (match ml_base_of_last_line last_line with
+     | Some base ->
+       (match try_rewrite_string rs ind cont content base with
+        | Some new0 -> if bytes_eqb new0 content then None else Some new0
+        | None -> None)
+     | None -> None)
+  | None -> None
+
+(** val line_ok : n list -> n list -> bool **)
+
+let line_ok base l =
+  (||) (is_prefix base l) (is_prefix l base)
+
+(** val strip_indent : n list -> n list -> n list **)
+
+let strip_indent base l =
+  match ml_strip_prefix base l with
+  | Some s -> s
+  | None -> if is_prefix l base then [] else l
+
+(** val closing_line : n list -> n list **)
+
+let closing_line c =
+  last (lines_custom c) []
+
+(** val closing_indent : n list -> n list **)
+
+let closing_indent c =
+  leading_ws (closing_line c)
+
+(** val interior : n list -> n list list **)
+
+let interior c =
+  removelast (tl (lines_custom c))
+
+(** val ml_value : n list -> n list list **)
+
+let ml_value c =
+  map (strip_indent (closing_indent c)) (interior c)
+
+(** val eligible : n list -> bool **)
+
+let eligible c =
+  (&&)
+    (Nat.eqb (count_leading_whitespace (closing_line c))
+      (length (trim_end_by is_quote (closing_line c))))
+    (forallb (line_ok (closing_indent c)) (interior c))
+
+type lline = { ll_type : logicalLineType; ll_level : n;
+               ll_parent : (nat * nat) option; ll_toks : nat list }
+
+(** val strictly_increasing : nat list -> bool **)
+
+let rec strictly_increasing = function
+| [] -> true
+| a :: t ->
+  (match t with
+   | [] -> true
+   | b :: _ -> (&&) (Nat.ltb a b) (strictly_increasing t))
+
+(** val line_ok0 : nat -> lline -> bool **)
+
+let line_ok0 ntok l =
+  match l.ll_toks with
+  | [] -> false
+  | _ :: _ ->
+    (&&) (strictly_increasing l.ll_toks)
+      (forallb (fun i -> Nat.ltb i ntok) l.ll_toks)
+
+(** val count_in_lines : lline list -> nat -> nat **)
+
+let count_in_lines lines i =
+  fold_left (fun acc l ->
+    if existsb (Nat.eqb i) l.ll_toks then S acc else acc) lines O
+
+(** val is_cond_directive : tokenType -> bool **)
+
+let is_cond_directive = function
+| TT_ConditionalDirective _ -> true
+| _ -> false
+
+(** val lines_cover : tokenType list -> lline list -> bool **)
+
+let lines_cover tys lines =
+  let n0 = length tys in
+  let nodir = negb (existsb is_cond_directive tys) in
+  (&&) (forallb (line_ok0 n0) lines)
+    (forallb (fun i ->
+      let k = count_in_lines lines i in
+      (&&) (Nat.leb (S O) k) (if nodir then Nat.eqb k (S O) else true))
+      (seq O n0))
+
+(** val parents_ok_from : lline list -> nat -> lline list -> bool **)
+
+let rec parents_ok_from all i = function
+| [] -> true
+| l :: r ->
+  (&&)
+    (match l.ll_parent with
+     | Some p ->
+       let (pl, pt) = p in
+       (&&) (Nat.ltb pl i)
+         (match nth_error all pl with
+          | Some p0 -> existsb (Nat.eqb pt) p0.ll_toks
+          | None -> false)
+     | None -> true) (parents_ok_from all (S i) r)
+
+(** val parents_ok : lline list -> bool **)
+
+let parents_ok lines =
+  parents_ok_from lines O lines
+
+(** val eof_line_ok : tokenType list -> lline list -> bool **)
+
+let eof_line_ok tys lines =
+  let n0 = length tys in
+  (&&)
+    (match filter (fun l ->
+             match l.ll_type with
+             | LLT_Eof -> true
+             | _ -> false) lines with
+     | [] -> false
+     | l :: l0 ->
+       (match l0 with
+        | [] ->
+          (match l.ll_toks with
+           | [] -> false
+           | i :: l1 ->
+             (match l1 with
+              | [] ->
+                (&&) (Nat.eqb (S i) n0)
+                  (match nth_error tys i with
+                   | Some t -> (match t with
+                                | TT_Eof -> true
+                                | _ -> false)
+                   | None -> false)
+              | _ :: _ -> false))
+        | _ :: _ -> false))
+    (forallb (fun l ->
+      match l.ll_type with
+      | LLT_Eof -> true
+      | _ -> negb (existsb (fun i -> Nat.eqb (S i) n0) l.ll_toks)) lines)
+
+module MLStringJoin =
+ struct
+  (** val join : bytes -> bytes list -> bytes **)
+
+  let rec join nl = function
+  | [] -> []
+  | l :: r -> (match r with
+               | [] -> l
+               | _ :: _ -> app l (app nl (join nl r)))
+ end
